@@ -140,7 +140,7 @@ func c02FmtPtr(p *int64) string {
 // C02.f80
 
 func (c *c02) f80Rule() {
-	ru := c.r.Rule("C02.f80", "80-bit extended floats: NewFloat80FromBytes assembles sign/exponent from bytes 0..1 and the 64-bit mantissa from bytes 2..9 big-endian (bit by bit); Float64 moves the sign to bit 63, the top 52 fraction bits to bits 51..0, rebiases the exponent by 1023-16383 with all-zero/all-one exponents mapped to 0/0x7ff, and only places an exponent that fits the 11-bit field; exponents outside the binary64 range return +-Inf / +-0", 11)
+	ru := c.r.Rule("C02.f80", "80-bit extended floats: NewFloat80FromBytes assembles sign/exponent from bytes 0..1 and the 64-bit mantissa from bytes 2..9 big-endian (bit by bit); Float64 moves the sign to bit 63, the top 52 fraction bits to bits 51..0, rebiases the exponent by 1023-16383 with all-zero/all-one exponents mapped to 0/0x7ff, and only places an exponent that fits the 11-bit field; exponents outside the binary64 range return +-Inf / +-0; an all-ones exponent with any non-zero fraction bit (also one of the 11 the assembly drops) answers NaN", 13)
 	// NewFloat80FromBytes
 	if fn := c.p.Fn("internal/mathx.NewFloat80FromBytes"); fn == nil || len(fn.Params) != 1 {
 		ru.Undecided("FromBytes:anchor", "", "mathx.NewFloat80FromBytes(b) not found")
@@ -308,7 +308,7 @@ func (c *c02) f80Rule() {
 	if sgn != nil {
 		env = env.With(map[ssa.Value]string{expField: "EXP", sgn: "SGN"})
 	}
-	nOver, nUnder := 0, 0
+	nOver, nUnder, nNaN := 0, 0, 0
 	for _, b := range fn.Blocks {
 		ret, isRet := b.Instrs[len(b.Instrs)-1].(*ssa.Return)
 		if !isRet || ret.Results[0] == ssa.Value(fb) {
@@ -332,10 +332,50 @@ func (c *c02) f80Rule() {
 			nUnder++
 			ru.Check(notSpecial && hi != nil && *hi-15360 <= 0, key+":zero", rpos, "+-0 exactly for rebiased exponents <= 0 that are not zero/subnormal encodings",
 				fmt.Sprintf("+-0 is returned under %s; must be only for non-special exponents whose rebiased value is <= 0", strings.Join(env.GuardSx(b), " ")))
+		case v == "(call math.NaN)":
+			// NaN is answered exactly for the all-ones exponent with a non-zero fraction, the test looking at
+			// all 63 fraction bits (the assembly keeps only the top 52: a payload in the low 11 would read as Inf)
+			nNaN++
+			fracAll := false
+			for _, g := range gvals {
+				bo, ok := g.Cond.(*ssa.BinOp)
+				if !ok || !((bo.Op == token.NEQ && g.True) || (bo.Op == token.EQL && !g.True)) {
+					continue
+				}
+				for _, xy := range [][2]ssa.Value{{bo.X, bo.Y}, {bo.Y, bo.X}} {
+					if k, ok := c02ConstInt(xy[1]); !ok || k != 0 {
+						continue
+					}
+					be3 := fw.NewBvEnv(fn, c.p.C02IntBits())
+					be3.Name = fieldSrc
+					bv, ok := be3.Of(xy[0])
+					if !ok {
+						continue
+					}
+					seen := map[int]bool{}
+					clean := true
+					for i := 0; i < bv.W; i++ {
+						switch b := bv.B[i]; {
+						case b.K == fw.BvZero:
+						case b.K == fw.BvSrc && b.Src == "m" && b.I <= 62:
+							seen[b.I] = true
+						default:
+							clean = false
+						}
+					}
+					if clean && len(seen) == 63 {
+						fracAll = true
+					}
+				}
+			}
+			ru.Check(env.HasGuard(b, "+(== 32767 EXP)") && fracAll, "Float64:nan", rpos, "NaN exactly under an all-ones exponent and a non-zero 63-bit fraction",
+				fmt.Sprintf("NaN is returned under %s; must be under the all-ones exponent and a test of all 63 fraction bits against 0", strings.Join(env.GuardSx(b), " ")))
 		default:
-			ru.Undecided(key, rpos, "a return of Float64 that is neither the assembled binary64 nor +-Inf / +-0 with the value's sign: "+v)
+			ru.Undecided(key, rpos, "a return of Float64 that is neither the assembled binary64, NaN, nor +-Inf / +-0 with the value's sign: "+v)
 		}
 	}
+	// the assembly drops the low 11 fraction bits: without the NaN answer a NaN whose payload lies there reads as +-Inf
+	ru.Check(nNaN == 1, "Float64:nan-kept", pos, "a NaN with a payload only in the dropped fraction bits stays a NaN", "the assembled binary64 keeps only the top 52 of the 63 fraction bits and no return answers NaN for an all-ones exponent with a non-zero fraction: 7fff 8000000000000001 (a NaN) reads as +Inf")
 	if ok {
 		lo, hi := env.AffineBounds(gv, "EXP")
 		if lo != nil && *lo > 1 {
@@ -630,6 +670,8 @@ func init() {
 	ctl("c02-f80-bias", "C02.f80", f80, "exp64 := int64(exp) - 16383 + 1023", "exp64 := int64(exp) - 16383 + 1024", "Float64:expmap")
 	ctl("c02-f80-range", "C02.f80", f80, "	case exp64 >= 0x7FF:\n", "	case exp64 >= 0x800:\n", "Float64:exp-range")
 	ctl("c02-f80-order", "C02.f80", f80, "	case exp == 0:\n		// exponent is all zeroes.\n		exp64 = 0\n", "	case exp64 <= 0:\n		return math.Copysign(0, float64(1-2*int(sign)))\n	case exp == 0:\n		// exponent is all zeroes.\n		exp64 = 0\n", "Float64")
+	ctl("c02-f80-nan-gone", "C02.f80", f80, "	if exp == 0x7FFF && frac != 0 {\n		// NaN, a payload only in the low bits that binary64 drops must not turn into infinity\n		return math.NaN()\n	}\n", "", "Float64:nan-kept")
+	ctl("c02-f80-nan-mask", "C02.f80", f80, "	if exp == 0x7FFF && frac != 0 {", "	if exp == 0x7FFF && frac>>11 != 0 {", "Float64:nan")
 	ctl("c02-f80-frac", "C02.f80", f80, "bits := sign<<63 | uint64(exp64)<<52 | frac>>11", "bits := sign<<63 | uint64(exp64)<<52 | frac>>12", "Float64:layout")
 	f16 := "internal/mathx/float16.go"
 	ctl("c02-f16-shift", "C02.f16", f16, "frac := uint32(in&float16FracMask) << 13", "frac := uint32(in&float16FracMask) << 12", "frac")
